@@ -51,7 +51,7 @@ VALUES = ['0', '1', '-1', '5', '3', '5.0', '5.0004', '5.002', '4.9995', '5000000
           "'a'", "'A'", "'a.'", "'Hello, World!'", "'hello world'", "'hello  world'", "'abc'", "'b'", "''", "'5'",
           '[]', '[1, 2]', '[1, 2.0004]', "['a', 'B']", "['A', 'b']", '[[1], [2]]', '[[1], [2.0005]]', '(1, 2)', "(1, 'a')", '()',
           "{'a': 1}", "{'a': 1.0004}", '{}', '{1, 2}', 'set()', "{'k': [1, {'z': 2.0}]}", "{'k': [1, {'z': 2.0003}]}",
-          '(1+0j)', "[1, 'a', None]", 'frozenset({1})']
+          '(1+0j)', "[1, 'a', None]", 'frozenset({1})', '{3}', "float('nan')", "float('inf')"]
 IDENTITY_STABLE = {'None', 'True', 'False', '0', '1', '-1', '5', '3'}
 LENGTHS = ['0', '1', '2', '3', "'a'", 'None', '2.0']
 CLASSES = ['int', 'float', 'str', 'list', 'tuple', 'dict', 'set', 'bool', 'type(None)', 'object', '(list, tuple)']
@@ -284,7 +284,14 @@ def judge_binary(case):
             if neg and outcomes[(neg, wrap)][0] == 'failing':
                 viol.append(V('C07|%s|fails-but-relation-holds|%s' % (neg, kind), '%s: %s failed although its relation holds' % (desc, neg)))
         # negation consistency on evaluable operands
-        if expect != 'error' and n_out is not None and p_out[0] in ('silent', 'failing') and n_out[0] in ('silent', 'failing'):
+        complementary = True
+        if fam in ORDER_NEGATION and expect != 'error':
+            # a < b and a >= b are each other's negation only on totally ordered operands (not for sets or nan)
+            try:
+                complementary = bool(BINARY_FAMILIES[ORDER_NEGATION[fam]][2](a_val, b_val)) != bool(expect)
+            except Exception:
+                complementary = False
+        if expect != 'error' and complementary and n_out is not None and p_out[0] in ('silent', 'failing') and n_out[0] in ('silent', 'failing'):
             if p_out[0] == n_out[0]:
                 viol.append(V('%s|negation-both-%s|%s' % (base, 'pass' if p_out[0] == 'silent' else 'fail', kind),
                               '%s and its negated counterpart both %s' % (desc, 'pass' if p_out[0] == 'silent' else 'fail')))
@@ -395,6 +402,92 @@ def judge_type(case):
         if not expect and n[0] == 'failing':
             viol.append(V('C07|assert_not_type|fails-but-relation-holds', desc))
     return Result(dedupe(viol), True, ['family=type'])
+
+
+# ---- generated type specs --------------------------------------------------------------------------------------------------
+# a type spec is nested data: 'int' | ['list', T] | ['set', T] | ['dict', K, V] | ['tuple', A, B, ...]
+_LEAF_VALUES = {'int': [0, 7, -3, 12345], 'float': [2.5, -0.5, 1e9], 'str': ['', 'abc', 'Hello'], 'bool': [True, False]}
+_NUMERIC = {'int', 'float', 'bool'}
+
+
+def spec_text(spec):
+    if isinstance(spec, str):
+        return spec
+    return '%s[%s]' % (spec[0], ', '.join(spec_text(x) for x in spec[1:]))
+
+
+def spec_value(spec, picks, pos=[0]):
+    """A value of exactly this type (containers homogeneous, non-empty)."""
+    def pick(n):
+        pos[0] += 1
+        return picks[pos[0] % len(picks)] % n
+    if isinstance(spec, str):
+        vals = _LEAF_VALUES[spec]
+        return vals[pick(len(vals))]
+    head = spec[0]
+    if head == 'list':
+        return [spec_value(spec[1], picks, pos) for _ in range(1 + pick(2))]
+    if head == 'set':
+        return {spec_value(spec[1], picks, pos)}
+    if head == 'dict':
+        return {spec_value(spec[1], picks, pos): spec_value(spec[2], picks, pos)}
+    return tuple(spec_value(x, picks, pos) for x in spec[1:])
+
+
+def spec_relation(actual, asked):
+    """True / False / None (not judged) : does a value of exactly type `actual` have the type `asked`?"""
+    if isinstance(actual, str) or isinstance(asked, str):
+        if isinstance(actual, str) and isinstance(asked, str):
+            if actual == asked:
+                return True
+            return None if {actual, asked} <= _NUMERIC else False     # pedal merges parts of the numeric tower on purpose
+        a_head = actual if isinstance(actual, str) else actual[0]
+        k_head = asked if isinstance(asked, str) else asked[0]
+        if isinstance(asked, str) and a_head == k_head:
+            return True           # bare 'list' accepts any list
+        return False if a_head != k_head else None
+    if actual[0] != asked[0]:
+        return False
+    if actual[0] == 'tuple' and len(actual) != len(asked):
+        return False
+    parts = [spec_relation(a, k) for a, k in zip(actual[1:], asked[1:])]
+    if False in parts:
+        return False
+    return None if None in parts else True
+
+
+def judge_typegen(case):
+    import typing
+    actual, asked = case['actual'], case['asked']
+    value = spec_value(actual, case['picks'], [0])
+    value_src = repr(value)
+    expect = spec_relation(actual, asked)
+    if expect is None:
+        return Result([], False, ['family=typegen', 'not-judged'], 1)
+    text = spec_text(asked)
+    spec = eval(text, {'typing': typing}) if case['form'] == 'alias' else (text if not isinstance(asked, str) or case['form'] == 'string' else eval(text))
+    viol = []
+    for wrap in ('r', 'p'):
+        sb = fresh()
+        op, val, err = make_operand(value_src, wrap == 'p', sb)
+        p = run_assertion('assert_type', (op, spec), {})
+        fresh_fb()
+        n = run_assertion('assert_not_type', (op, spec), {})
+        desc = 'assert_type(%s, %r) wrap=%s' % (value_src, spec, wrap)
+        shape = 'generic' if not isinstance(asked, str) else 'plain'
+        for name, out in (('assert_type', p), ('assert_not_type', n)):
+            if out[0].startswith('raises') or out[0] == 'inconsistent':
+                viol.append(V('C07|%s|%s|spec=%s' % (name, out[0], shape), '%s: %s %s' % (desc, out[0], out[1])))
+        if expect and p[0] == 'failing':
+            viol.append(V('C07|assert_type|fails-but-relation-holds|%s' % shape, desc))
+        if not expect and p[0] == 'silent':
+            viol.append(V('C07|assert_type|silent-but-relation-false|%s' % shape, desc))
+        if expect and n[0] == 'silent':
+            viol.append(V('C07|assert_not_type|silent-but-relation-false|%s' % shape, desc))
+        if not expect and n[0] == 'failing':
+            viol.append(V('C07|assert_not_type|fails-but-relation-holds|%s' % shape, desc))
+    depth = lambda sp: 0 if isinstance(sp, str) else 1 + max(depth(x) for x in sp[1:])
+    return Result(dedupe(viol), True, ['family=typegen', 'typegen-expected=%s' % expect, 'typegen-depth=%d' % depth(asked), 'typegen-form=' + case['form']])
 
 
 def judge_output(case):
@@ -532,6 +625,8 @@ def judge(case):
         return judge_unary(case)
     if kind == 'type':
         return judge_type(case)
+    if kind == 'typegen':
+        return judge_typegen(case)
     if kind == 'output':
         return judge_output(case)
     return judge_unit(case)
@@ -609,10 +704,54 @@ def unit_cases(tier):
                                   'cases': st.lists(st.tuples(st.integers(0, 5), st.booleans()).map(list), min_size=1, max_size=5)})
 
 
-STRATEGIES = {'nested': lambda tier: perturbed_pair(), 'unit': unit_cases}
+_leaf_spec = st.sampled_from(['int', 'float', 'str', 'bool'])
+_hashable_spec = st.sampled_from(['int', 'str'])
+_spec = st.recursive(_leaf_spec, lambda ch: st.one_of(
+    st.tuples(st.just('list'), ch).map(list), st.tuples(st.just('set'), _hashable_spec).map(list),
+    st.tuples(st.just('dict'), _hashable_spec, ch).map(list),
+    st.lists(ch, min_size=1, max_size=3).map(lambda xs: ['tuple'] + xs)), max_leaves=5)
+
+
+def _mutations(spec):
+    """Specs that differ from `spec` in exactly one place."""
+    out = []
+    if isinstance(spec, str):
+        return [x for x in ('int', 'float', 'str', 'bool') if x != spec] + [['list', spec]]
+    out.append(spec[0])                                   # bare container name
+    out.append({'list': 'tuple', 'tuple': 'list', 'set': 'list', 'dict': 'list'}[spec[0]])
+    if spec[0] == 'tuple':
+        out.append(spec + ['int'])
+        if len(spec) > 2:
+            out.append(spec[:-1])
+            out.append([spec[0]] + spec[1:][::-1])
+    if spec[0] == 'list':
+        out.append(['set', spec[1]] if spec[1] in ('int', 'str') else ['tuple', spec[1]])
+    for i in range(1, len(spec)):
+        for m in _mutations(spec[i]):
+            if spec[0] in ('set',) and not isinstance(m, str):
+                continue
+            out.append(spec[:i] + [m] + spec[i + 1:])
+    return out
+
+
+@st.composite
+def typegen_cases(draw):
+    actual = draw(_spec)
+    mode = draw(st.sampled_from(['same', 'mutated', 'mutated', 'other']))
+    if mode == 'same':
+        asked = actual
+    elif mode == 'mutated':
+        asked = draw(st.sampled_from(_mutations(actual)))
+    else:
+        asked = draw(_spec)
+    form = draw(st.sampled_from(['string', 'alias', 'plain']))
+    return {'kind': 'typegen', 'actual': actual, 'asked': asked, 'form': form, 'picks': draw(st.lists(st.integers(0, 11), min_size=3, max_size=6))}
+
+
+STRATEGIES = {'nested': lambda tier: perturbed_pair(), 'unit': unit_cases, 'typegen': lambda tier: typegen_cases()}
 
 
 def plan(tier):
     k = 1 if tier == 'quick' else 20
     return [Task('enum', 'table', shards=12), Task('hyp', 'nested', shards=2, examples=scale(600 * k)),
-            Task('hyp', 'unit', shards=2, examples=scale(300 * k))]
+            Task('hyp', 'unit', shards=2, examples=scale(300 * k)), Task('hyp', 'typegen', shards=2, examples=scale(400 * k))]
